@@ -11,6 +11,7 @@ package server
 
 import (
 	"fmt"
+	"os"
 	"strings"
 	"testing"
 	"testing/synctest"
@@ -131,17 +132,21 @@ func (ru *c15Run) doRoundReset(rd c15Round) error {
 		}
 		return ru.n.s.ResetPeer(c15Ctx, &api.ResetPeerRequest{Address: rd.reset.Target, Soft: true, Direction: dir})
 	}
-	fams := []bgp.Family{bgp.RF_IPv4_UC, bgp.RF_IPv6_UC}
+	fams := []bgp.Family{bgp.RF_IPv4_UC, bgp.RF_IPv6_UC, bgp.RF_IPv4_VPN}
 	if rd.split {
-		fams = []bgp.Family{bgp.RF_IPv6_UC, bgp.RF_IPv4_UC}
+		fams = []bgp.Family{bgp.RF_IPv4_VPN, bgp.RF_IPv6_UC, bgp.RF_IPv4_UC}
 	}
 	for _, f := range fams {
 		for i, ps := range c.peers {
-			if rd.reset.Target != "all" && rd.reset.Target != ps.Addr || f == bgp.RF_IPv6_UC && !ps.V6 {
+			if rd.reset.Target != "all" && rd.reset.Target != ps.Addr {
 				continue
 			}
-			if err := ru.sps[i].sendMsg(bgp.NewBGPRouteRefreshMessage(f.Afi(), 0, f.Safi())); err != nil {
-				return err
+			for _, g := range c.peerFams(i) {
+				if g == f {
+					if err := ru.sps[i].sendMsg(bgp.NewBGPRouteRefreshMessage(f.Afi(), 0, f.Safi())); err != nil {
+						return err
+					}
+				}
 			}
 		}
 		if rd.split {
@@ -204,14 +209,24 @@ func c15RunHistory(t *testing.T, c *c15Case, rounds []c15Round, upto int) (res c
 func c15HistoryCase(t *testing.T, rec *vlib.Rec, idx int) {
 	r := vlib.CaseRand("c15h", idx)
 	c := c15GenCaseMode(idx, r, true)
+	c15RunHistoryCase(t, rec, idx, c, "")
+}
+
+// c15RunHistoryCase: fam "" = plain topologies, "vrf" = VRF neighbours behind VPN-speaking peers
+// (violation keys and counters carry the family name).
+func c15RunHistoryCase(t *testing.T, rec *vlib.Rec, idx int, c *c15Case, fam string) {
 	rounds := c15GenRounds(c)
+	famSfx, famPfx := "", ""
+	if fam != "" {
+		famSfx, famPfx = ":"+fam, fam+"_"
+	}
 	var a c15HistResult
 	synctest.Test(t, func(t *testing.T) { a = c15RunHistory(t, c, rounds, len(rounds)) })
 	if a.err != nil {
 		t.Fatalf("c15 harness: history %d run A: %v", idx, a.err)
 	}
 	rec.Eval()
-	rec.Count("histories", 1)
+	rec.Count(famPfx+"histories", 1)
 	if len(a.a0.anom) > 0 {
 		rec.Inconclusive(fmt.Sprintf("c15: history %d: anomaly before the first change: %v", idx, a.a0.anom))
 		return
@@ -263,21 +278,36 @@ func c15HistoryCase(t *testing.T, rec *vlib.Rec, idx int) {
 			rec.Inconclusive(fmt.Sprintf("c15: history %d round %d: read-back after the change (run A) differs from a fresh install (run B): A=%v B=%v", idx, k+1, a.readback[k], brb))
 			return
 		}
+		if pat := os.Getenv("VERIF_C15_DUMP"); pat != "" {
+			for _, x := range []struct {
+				n string
+				s *c15Snap
+			}{{"A0", a.a0}, {fmt.Sprintf("A%d", k+1), ak}, {fmt.Sprintf("B%d", k+1), b}} {
+				for vn, v := range x.s.views {
+					for key, val := range v {
+						if strings.Contains(key, pat) {
+							fmt.Printf("C15DUMP %s %s %s = %s\n", x.n, vn, key, val)
+						}
+					}
+				}
+			}
+			fmt.Printf("C15DUMP round %d: %s\n", k+1, rd.describe())
+		}
 		tgt := "one"
 		if rd.reset.Target == "all" {
 			tgt = "all"
 		}
-		rec.Count("rounds", 1)
-		rec.Count("round_reset_"+rd.reset.Kind+"_"+tgt, 1)
+		rec.Count(famPfx+"rounds", 1)
+		rec.Count(famPfx+"round_reset_"+rd.reset.Kind+"_"+tgt, 1)
 		if rd.inverse {
 			rec.Count("rounds_taking_previous_change_back", 1)
 		}
 		if rd.split {
 			rec.Count("rounds_refresh_per_family", 1)
 		}
-		sfx := ""
+		sfx := famSfx
 		if k > 0 {
-			sfx = ":after-" + rounds[k-1].reset.Kind
+			sfx += ":after-" + rounds[k-1].reset.Kind
 			rec.Count("round_"+rd.reset.Kind+"_after_"+rounds[k-1].reset.Kind, 1)
 		}
 		pats := c15Patterns(prev, b)
@@ -285,8 +315,8 @@ func c15HistoryCase(t *testing.T, rec *vlib.Rec, idx int) {
 			rec.Count("round_pattern_"+p, 1)
 		}
 		if len(pats) > 0 {
-			rec.Count("nontrivial_rounds", 1)
-			rec.Nontrivial("hist|" + strings.Join(pats, ",") + "|" + rd.reset.Kind + sfx + "|" + rd.kinds())
+			rec.Count(famPfx+"nontrivial_rounds", 1)
+			rec.Nontrivial("hist"+famSfx+"|" + strings.Join(pats, ",") + "|" + rd.reset.Kind + sfx + "|" + rd.kinds())
 		}
 		n := 0
 		for _, v := range b.views {
@@ -309,7 +339,10 @@ func c15HistoryCase(t *testing.T, rec *vlib.Rec, idx int) {
 			for _, ps := range c.peers {
 				if ds := c15Compare(&c15Snap{views: map[string]c15View{"x": s.views["wire@"+ps.Addr]}}, &c15Snap{views: map[string]c15View{"x": s.views["adj-out@"+ps.Addr]}}, nil, nil); len(ds) > 0 {
 					tainted["wire@"+ps.Addr] = true
-					rec.Count("precondition_wire_ne_adjout_run_"+rn, 1)
+					rec.Count(famPfx+"precondition_wire_ne_adjout_run_"+rn, 1)
+					if os.Getenv("VERIF_C15_TAINT") != "" {
+						fmt.Printf("C15TAINT %shistory %d round %d run %s peer %s: %v\n", famPfx, idx, k+1, rn, ps.Addr, c15DiffStrings(ds, 4))
+					}
 				}
 			}
 		}
@@ -339,7 +372,7 @@ func c15HistoryCase(t *testing.T, rec *vlib.Rec, idx int) {
 					if len(ks) == 0 {
 						ks = []string{"none"}
 					}
-					key = "c15:change-not-effective:" + strings.Join(ks, "+") + ":" + dname
+					key = "c15:change-not-effective:" + strings.Join(ks, "+") + ":" + dname + famSfx
 					if k > 0 {
 						key += ":later-round"
 					}
@@ -356,7 +389,7 @@ func c15HistoryCase(t *testing.T, rec *vlib.Rec, idx int) {
 			}
 			return // later rounds would only inherit the damage
 		}
-		rec.Count("rounds_equal", 1)
+		rec.Count(famPfx+"rounds_equal", 1)
 		prev = ak
 	}
 	if idx%53 == 3 {
